@@ -150,11 +150,12 @@ func (a *actor) run(p *Peer, nops int) {
 			if !w.FaultsOn || w.FaultRate["conn.drop"] == 0 {
 				continue
 			}
-			w.Fault("conn.drop")
 			call := w.Logf("fault conn.drop %s", p.Name)
 			simrt.Self().OpSeq = call
-			pr.L.Disconnect(p.Name)
-			a.extra = append(a.extra, RegOp{Kind: "drop", Peer: p.Name, OK: true, Call: call, Return: w.Stamp(), Desc: "conn.drop"})
+			if pr.L.Disconnect(p.Name) {
+				w.Fault("conn.drop")
+				a.extra = append(a.extra, RegOp{Kind: "drop", Peer: p.Name, OK: true, Call: call, Return: w.Stamp(), Desc: "conn.drop"})
+			}
 			if w.T.Bool(3, 4, "reconnect") {
 				w.Fault("conn.restart")
 				p.Connect()
@@ -293,7 +294,7 @@ func (a *actor) checkWrites(prop string, ev *EventLog, regOps []RegOp, dops []*d
 			notifies := 0
 			for _, p := range a.pr.Peers {
 				for _, s := range p.Conn.Out {
-					if s.OpSeq == d.Begin && Classifier(s) == "notify" && s.D != nil && AddrStr(s.D.Header.AddressSource) == AddrStr(wo.dst.F.Address()) {
+					if s.OpSeq == d.Pre && Classifier(s) == "notify" && s.D != nil && AddrStr(s.D.Header.AddressSource) == AddrStr(wo.dst.F.Address()) {
 						notifies++
 					}
 				}
@@ -340,7 +341,7 @@ func (a *actor) checkWrites(prop string, ev *EventLog, regOps []RegOp, dops []*d
 							st := subscribedState(regOps, "sub", RegKey{p.Name, AddrStr(f.Address()), AddrStr(wo.dst.Address())}, d.Begin, d.End)
 							n := 0
 							for _, s := range p.Conn.Out {
-								if s.OpSeq == d.Begin && Classifier(s) == "notify" && s.D != nil && AddrStr(s.D.Header.AddressDestination) == AddrStr(f.Address()) &&
+								if s.OpSeq == d.Pre && Classifier(s) == "notify" && s.D != nil && AddrStr(s.D.Header.AddressDestination) == AddrStr(f.Address()) &&
 									AddrStr(s.D.Header.AddressSource) == AddrStr(wo.dst.F.Address()) {
 									n++
 								}
